@@ -1079,7 +1079,7 @@ func (g *gen) idiom(d int, top bool) []stmtText {
 	e := func() string { return g.w(g.expr(kAny, d-1), pAssign) }
 	c := func() string { return g.condTest(d - 1).s }
 	cp := func() string { return g.w(g.condTest(d-1), pBitOr) }
-	switch r.Intn(35) {
+	switch r.Intn(37) {
 	case 33, 34: // several var declarations in one function (hoisting) with a destructuring declarator after initialised ones:
 		// the pattern must not be moved in front of the initialisers it follows (K121)
 		a, b, z := g.fresh("v"), g.fresh("v"), g.fresh("v")
@@ -1088,6 +1088,15 @@ func (g *gen) idiom(d int, top bool) []stmtText {
 		first := r.Pick(a+"="+h()+"(1)", a+"=5", a+"="+e())
 		mid := r.Pick("", "", ","+g.fresh("v"), ","+g.fresh("v")+"="+h()+"(2)")
 		return one(h()+"(function(){var "+z+";"+h()+"(0);var "+first+mid+","+pat+";return["+a+","+b+"]}())", true)
+	case 35, 36: // an if / else whose branch is a labelled block ending in a break to its own label: control continues after
+		// the if, so the else must not be flattened into the surrounding list (lastStmt does not look through labels)
+		g.kindHit("idiom:labelled-block-branch")
+		l := g.fresh("l")
+		lb := l + ":{" + h() + "(1);" + r.Pick("break "+l, "if("+c()+")break "+l+";"+h()+"(5);break "+l) + "}"
+		if r.Bool() {
+			return one("if("+c()+")"+lb+"else "+h()+"(2);"+h()+"(3)", true)
+		}
+		return one("if(!("+c()+"))"+h()+"(2);else "+lb+h()+"(3)", true)
 	case 31, 32: // (x, E) op y as a statement: the parentheses are unwrapped and E becomes the left operand of op (K119)
 		last := r.Pick("!("+c()+"&&"+c()+")", "!("+c()+"||"+c()+")", "!("+cp()+"=="+cp()+")", c()+"?"+e()+":"+e(), "true", "!("+c()+"&&"+c()+")")
 		op := r.Pick("&&", "&&", "||", "&&")
